@@ -692,3 +692,72 @@ Section Examples.
   Example ex_prop_vote : prop_vote 1 E2 s0 [t1; t2; t3] = [t1].
   Proof. vm_compute. reflexivity. Qed.
 End Examples.
+
+(* ------------------------------------------------------------------ *)
+(* Round 9: JobPipelined with role minimums.  With gang configured in some tier a job statement is
+   committed only if gang's vote permits, and that vote includes CheckTaskPipelined, which ranges
+   over TaskMinAvailable (j_role_min): EVERY role with a minimum, a role without a single occupied
+   pod included, has reached it (unless the role minimums exceed minMember in total, in which case
+   the code does not look at them). *)
+Definition is_gang (pl : plug) : bool := match p_kind pl with KGang => true | _ => false end.
+Definition gang_in (ts : list (list plug)) : bool := existsb (existsb is_gang) ts.
+Definition pip_slot (g : bool) (pl : plug) : slot Z :=
+  match p_kind pl with
+  | KGang => mkSlot true true (if g then 1 else -1)
+  | _ => mkSlot true false 0
+  end.
+
+Lemma pipelined_layout_eq E s j :
+  pipelined_layout E s j = map (map (pip_slot (gang_job_pipelined (heap s) j))) (e_tiers E).
+Proof. reflexivity. Qed.
+
+Lemma vote_tier_reject t hf :
+  vote_tier hf (map (pip_slot false) t) = if existsb is_gang t then None else Some hf.
+Proof.
+  revert hf. induction t as [|a t IH]; intros hf; [reflexivity|].
+  cbn [map existsb vote_tier]. unfold pip_slot at 1 2 3, is_gang at 1.
+  destruct (p_kind a); cbn; apply IH || reflexivity.
+Qed.
+
+Lemma vote_tiers_reject ts : gang_in ts = true -> vote_tiers (map (map (pip_slot false)) ts) = false.
+Proof.
+  unfold gang_in. induction ts as [|t ts IH]; [discriminate|].
+  cbn [map existsb vote_tiers]. rewrite vote_tier_reject.
+  destruct (existsb is_gang t); [reflexivity|]. cbn. exact IH.
+Qed.
+
+Lemma pipelined_now_gang E s j :
+  gang_in (e_tiers E) = true -> job_pipelined_now E s j = true -> gang_job_pipelined (heap s) j = true.
+Proof.
+  intros Hg. unfold job_pipelined_now. rewrite pipelined_layout_eq.
+  destruct (gang_job_pipelined (heap s) j); [reflexivity|].
+  rewrite (vote_tiers_reject _ Hg). discriminate.
+Qed.
+
+Lemma gang_pipelined_roles h j :
+  gang_job_pipelined h j = true ->
+  is_pipelined h (j_index j) (j_min j) = true /\
+  (j_role_total j <= j_min j ->
+   forall r m, j_role_min j !! r = Some m -> m <= role_occupied h (j_index j) true r).
+Proof.
+  unfold gang_job_pipelined, check_task_pipelined, roles_ok.
+  intros [Hr Hp]%andb_true_iff. split; [exact Hp|].
+  intros Hle r m Hm.
+  rewrite bool_decide_eq_false_2 in Hr by lia.
+  apply bool_decide_eq_true_1 in Hr. specialize (Hr r m Hm). cbn beta in Hr.
+  apply bool_decide_eq_true_1 in Hr. exact Hr.
+Qed.
+
+(* the statement on close_job: a job statement whose records survive (the statement was committed)
+   belongs to a job that reached minMember AND every role minimum, counting pipelined pods *)
+Lemma committed_job_reached_role_minimums eps E s jid j lg s' lg' :
+  jobs s !! jid = Some j -> gang_in (e_tiers E) = true ->
+  close_job eps E s jid lg = (s', lg') -> lg' <> [] ->
+  is_pipelined (heap s) (j_index j) (j_min j) = true /\
+  (j_role_total j <= j_min j ->
+   forall r m, j_role_min j !! r = Some m -> m <= role_occupied (heap s) (j_index j) true r).
+Proof.
+  intros Hj Hg. unfold close_job. rewrite Hj.
+  destruct (job_pipelined_now E s j) eqn:Hp; intros [= <- <-] Hne; [|congruence].
+  apply gang_pipelined_roles, (pipelined_now_gang E); assumption.
+Qed.
